@@ -114,7 +114,7 @@ func c11Us(level int) []*big.Int {
 
 	w := int64(1 << 11)
 	if level >= 1 {
-		w = 1 << 14
+		w = 1 << 17
 	}
 
 	for i := int64(1); i <= w; i++ {
@@ -125,7 +125,7 @@ func c11Us(level int) []*big.Int {
 		add(s)
 	}
 
-	for _, v := range alpha.Values(ref.P, 0) {
+	for _, v := range alpha.Values(ref.P, 2*level) {
 		add(v.V)
 	}
 
@@ -175,6 +175,9 @@ func C11(r *ev.Report) {
 	})
 
 	nx := 2048
+	if ev.Thorough() {
+		nx = 1 << 16
+	}
 	r.ParFor(nx, func(_, i int) {
 		x := big.NewInt(int64(i))
 		rhs := ref.Iso.RHS(x)
